@@ -32,7 +32,8 @@ func runC01(c *an.Ctx) string {
 	r0110NilableKinds(c, "R01.10")
 	conversionRolesRule(c, "R01.12", "http/codegen/templates")
 	aliasFlattening(c, "R01.11")
-	r0113ReservedLocals(c, "R01.13") // an unflattened alias leaves validation code written for the primitive on a user type
+	r0113ReservedLocals(c, "R01.13")
+	r067InheritanceAgreement(c, "R01.14") // accepted designs are generated with the requirements they were validated against // an unflattened alias leaves validation code written for the primitive on a user type
 	return explanationC01
 }
 
